@@ -50,6 +50,47 @@ Proof.
   - apply complete_doc_b_spec.
 Qed.
 
+Lemma no_body_eq r r0 : r = no_body r0 <-> (r_body r = [] /\ r_status r = r_status r0 /\ r_hdr r = r_hdr r0).
+Proof.
+  destruct r as [s h b], r0 as [s0 h0 b0]; unfold no_body; cbn. split.
+  - intros H. inversion H; subst. repeat split.
+  - intros (H1 & H2 & H3). subst. reflexivity.
+Qed.
+
+Lemma all_or_nothing_wire_b_spec head st ct eh doc failed r :
+  all_or_nothing_wire_b head st ct eh doc failed r = true <-> all_or_nothing_wire head st ct eh doc failed r.
+Proof.
+  unfold all_or_nothing_wire_b, all_or_nothing_wire. destruct head; [|apply all_or_nothing_b_spec].
+  rewrite andb_true_iff, bytes_eqb_eq. unfold all_or_nothing. destruct failed.
+  - destruct eh as [e|].
+    + rewrite resp_eqb_eq. split.
+      * intros [B E]. exists e. split; [reflexivity|assumption].
+      * intros (r0 & E0 & E). subst r0. split; [|assumption]. rewrite E. reflexivity.
+    + rewrite !andb_true_iff, N.eqb_eq, !obytes_eqb_eq. unfold default_error. split.
+      * intros (B & (S & C) & X).
+        exists {| r_status := r_status r; r_hdr := r_hdr r; r_body := err_body |}. cbn.
+        split; [repeat split; assumption|]. apply no_body_eq. cbn. repeat split. assumption.
+      * intros (r0 & (S & _ & C & X) & E). apply no_body_eq in E as (B & S' & H'). rewrite S', H'. repeat split; assumption.
+  - rewrite !andb_true_iff, N.eqb_eq, obytes_eqb_eq. unfold complete_doc. split.
+    + intros (B & S & C).
+      exists {| r_status := r_status r; r_hdr := r_hdr r; r_body := doc |}. cbn.
+      split; [repeat split; assumption|]. apply no_body_eq. cbn. repeat split. assumption.
+    + intros (r0 & (S & C & _) & E). apply no_body_eq in E as (B & S' & H'). rewrite S', H'. repeat split; assumption.
+Qed.
+
+(* what the ResponseWriter was given is all-or-nothing => so is what the client of a HEAD receives *)
+Lemma all_or_nothing_on_the_wire head st ct eh doc failed r :
+  all_or_nothing st ct eh doc failed r ->
+  all_or_nothing_wire head st ct (if head then option_map no_body eh else eh) doc failed (if head then no_body r else r).
+Proof.
+  intros A. unfold all_or_nothing_wire. destruct head; [|assumption].
+  unfold all_or_nothing in *. destruct failed.
+  - destruct eh as [e|]; cbn.
+    + exists (no_body e). split; [reflexivity|]. subst r. reflexivity.
+    + exists r. split; [assumption|reflexivity].
+  - exists r. split; [assumption|reflexivity].
+Qed.
+
 (* ---------- rendering into a buffer ---------- *)
 Lemma render_into_concat buf o : render_into buf o = buf ++ document o.
 Proof.
@@ -63,10 +104,11 @@ Qed.
 Lemma default_error_fresh : default_error (observe (http_error err_msg 500 fresh)).
 Proof. vm_compute. repeat split. Qed.
 
-Lemma buffered_on_empty c o :
-  all_or_nothing (c_status c) (c_ctype c) (eh_alone c) (document o) (fails o) (observe (serve_buffered c o)).
+Lemma buffered_on_empty q c (k : component) :
+  all_or_nothing (c_status c) (c_ctype c) (eh_alone q c) (document (k (q_ctx q))) (fails (k (q_ctx q))) (observe (serve_buffered q c k)).
 Proof.
   unfold serve_buffered, serve_buffered_on, all_or_nothing, eh_alone.
+  generalize (k (q_ctx q)) as o. intros o.
   destruct (fails o).
   - destruct (c_errh c) as [h|]; cbn [snd].
     + reflexivity.
@@ -75,14 +117,37 @@ Proof.
     unfold complete_doc, with_status. destruct (c_status c =? 0); cbn; repeat split.
 Qed.
 
-Theorem buffered_all_or_nothing c o :
+Theorem buffered_all_or_nothing q c (k : component) :
   c_stream c = false ->
-  all_or_nothing (c_status c) (c_ctype c) (eh_alone c) (document o) (fails o) (observe (serve c o)).
+  all_or_nothing (c_status c) (c_ctype c) (eh_alone q c) (document (k (q_ctx q))) (fails (k (q_ctx q))) (observe (serve q c k)).
 Proof. intros H. unfold serve. rewrite H. apply buffered_on_empty. Qed.
 
+(* the same as the client of the request observes it (HEAD: no body) *)
+Theorem buffered_all_or_nothing_wire q c (k : component) :
+  c_stream c = false ->
+  all_or_nothing_wire (is_head q) (c_status c) (c_ctype c) (option_map (client_view q) (eh_alone q c))
+    (document (k (q_ctx q))) (fails (k (q_ctx q))) (client_view q (observe (serve q c k))).
+Proof.
+  intros H. pose proof (all_or_nothing_on_the_wire (is_head q) _ _ _ _ _ _ (buffered_all_or_nothing q c k H)) as A.
+  unfold client_view. destruct (is_head q); [exact A|].
+  destruct (eh_alone q c); exact A.
+Qed.
+
+(* the handler itself never looks at the request: two requests whose contexts are in the same state and
+   on which the error handler (if any) behaves the same get the same response *)
+Theorem response_independent_of_request q1 q2 c (k : component) :
+  q_ctx q1 = q_ctx q2 ->
+  (forall h w, c_errh c = Some h -> h q1 w = h q2 w) ->
+  serve q1 c k = serve q2 c k.
+Proof.
+  intros C E. unfold serve, serve_streamed, serve_buffered, serve_buffered_on. rewrite C.
+  destruct (c_stream c); destruct (fails (k (q_ctx q2))); try reflexivity;
+    destruct (c_errh c) as [h|] eqn:EH; try reflexivity; cbn [snd]; apply E; reflexivity.
+Qed.
+
 (* the error response does not depend on what the component wrote before failing *)
-Theorem error_response_independent c o1 o2 :
-  c_stream c = false -> fails o1 = true -> fails o2 = true -> serve c o1 = serve c o2.
+Theorem error_response_independent q c (k1 k2 : component) :
+  c_stream c = false -> fails (k1 (q_ctx q)) = true -> fails (k2 (q_ctx q)) = true -> serve q c k1 = serve q c k2.
 Proof.
   intros H F1 F2. unfold serve. rewrite H. unfold serve_buffered, serve_buffered_on. rewrite F1, F2.
   destruct (c_errh c); reflexivity.
@@ -90,13 +155,14 @@ Qed.
 
 (* without an error handler a failed render is never answered with anything but status 500 and the fixed message;
    a successful one always carries the whole document *)
-Theorem buffered_never_mixed c o :
+Theorem buffered_never_mixed q c (k : component) :
   c_stream c = false -> c_errh c = None ->
-  let r := observe (serve c o) in
+  let o := k (q_ctx q) in
+  let r := observe (serve q c k) in
   (fails o = true -> r_status r = 500 /\ r_body r = err_body) /\
   (fails o = false -> r_body r = document o /\ r_status r = (if c_status c =? 0 then 200 else c_status c)).
 Proof.
-  intros H E r. pose proof (buffered_all_or_nothing c o H) as A. fold r in A.
+  intros H E o r. pose proof (buffered_all_or_nothing q c k H) as A. fold o in A. fold r in A.
   unfold all_or_nothing, eh_alone in A. rewrite E in A. split; intros F; rewrite F in A.
   - destruct A as (A1 & A2 & _). split; assumption.
   - destruct A as (A1 & _ & A3). split; assumption.
@@ -121,35 +187,35 @@ Proof.
   - split; [reflexivity|assumption].
 Qed.
 
-Lemma serve_pooled_pure p pick c o :
+Lemma serve_pooled_pure p pick q c (k : component) :
   pool_clean p ->
-  snd (serve_pooled release_buffer p pick c o) = serve_buffered c o /\
-  pool_clean (fst (serve_pooled release_buffer p pick c o)).
+  snd (serve_pooled release_buffer p pick q c k) = serve_buffered q c k /\
+  pool_clean (fst (serve_pooled release_buffer p pick q c k)).
 Proof.
   intros H. unfold serve_pooled. destruct (get_buffer_clean pick p H) as [G1 G2].
   destruct (get_buffer pick p) as [buf p1]. cbn in G1, G2. subst buf.
-  unfold serve_buffered. destruct (serve_buffered_on [] c o) as [buf' w]. cbn. split; [reflexivity|].
+  unfold serve_buffered. destruct (serve_buffered_on [] q c k) as [buf' w]. cbn. split; [reflexivity|].
   constructor; [reflexivity|assumption].
 Qed.
 
 Lemma serve_seq_pure reqs : forall p,
   pool_clean p ->
-  snd (serve_seq release_buffer p reqs) = map (fun '(_, c, o) => serve_buffered c o) reqs /\
+  snd (serve_seq release_buffer p reqs) = map (fun '(_, q, c, k) => serve_buffered q c k) reqs /\
   pool_clean (fst (serve_seq release_buffer p reqs)).
 Proof.
-  induction reqs as [|[[pick c] o] t IH]; intros p H; cbn.
+  induction reqs as [|[[[pick q] c] k] t IH]; intros p H; cbn.
   - split; [reflexivity|assumption].
-  - destruct (serve_pooled_pure p pick c o H) as [S1 S2].
-    destruct (serve_pooled release_buffer p pick c o) as [p1 w]. cbn in S1, S2.
+  - destruct (serve_pooled_pure p pick q c k H) as [S1 S2].
+    destruct (serve_pooled release_buffer p pick q c k) as [p1 w]. cbn in S1, S2.
     destruct (IH p1 S2) as [T1 T2]. destruct (serve_seq release_buffer p1 t) as [p2 ws]. cbn in T1, T2. cbn.
     split; [congruence|assumption].
 Qed.
 
 (* every response in every history of buffered requests, whatever buffers the pool hands out *)
-Theorem pooled_all_or_nothing reqs n pick c o w :
-  nth_error reqs n = Some (pick, c, o) ->
+Theorem pooled_all_or_nothing reqs n pick q c (k : component) w :
+  nth_error reqs n = Some (pick, q, c, k) ->
   nth_error (snd (serve_seq release_buffer [] reqs)) n = Some w ->
-  all_or_nothing (c_status c) (c_ctype c) (eh_alone c) (document o) (fails o) (observe w).
+  all_or_nothing (c_status c) (c_ctype c) (eh_alone q c) (document (k (q_ctx q))) (fails (k (q_ctx q))) (observe w).
 Proof.
   intros R W. destruct (serve_seq_pure reqs [] (Forall_nil _)) as [S _]. rewrite S in W.
   rewrite (map_nth_error _ _ _ R) in W. inversion W; subst. apply buffered_on_empty.
@@ -174,14 +240,15 @@ Proof.
   destruct x; reflexivity.
 Qed.
 
-Theorem streamed_partial c o :
+Theorem streamed_partial q c (k : component) :
+  let o := k (q_ctx q) in
   c_stream c = true -> c_errh c = None -> fails o = true -> (c_status c <> 0 \/ chunks o <> []) ->
-  let r := observe (serve c o) in
+  let r := observe (serve q c k) in
   r_status r = (if c_status c =? 0 then 200 else c_status c) /\
   hget h_ctype (r_hdr r) = Some (c_ctype c) /\
   r_body r = document o ++ err_body.
 Proof.
-  intros S E F G r. subst r. unfold serve, serve_streamed. rewrite S, E, F. unfold with_status, document.
+  intros o S E F G r. subst r. unfold serve, serve_streamed. fold o. rewrite S, E, F. unfold with_status, document.
   destruct (c_status c =? 0) eqn:Z.
   - destruct G as [G|G]; [apply N.eqb_eq in Z; contradiction|].
     destruct (chunks o) as [|ch l]; [contradiction|]. cbn [fold_left].
@@ -191,29 +258,31 @@ Proof.
     erewrite http_error_sent by (cbn; reflexivity). cbn. repeat split.
 Qed.
 
-Theorem streamed_not_all_or_nothing c o :
+Theorem streamed_not_all_or_nothing q c (k : component) :
+  let o := k (q_ctx q) in
   c_stream c = true -> c_errh c = None -> fails o = true -> document o <> [] ->
-  ~ all_or_nothing (c_status c) (c_ctype c) (eh_alone c) (document o) (fails o) (observe (serve c o)).
+  ~ all_or_nothing (c_status c) (c_ctype c) (eh_alone q c) (document o) (fails o) (observe (serve q c k)).
 Proof.
-  intros S E F D A. assert (G : c_status c <> 0 \/ chunks o <> []).
+  intros o S E F D A. assert (G : c_status c <> 0 \/ chunks o <> []).
   { right. intros N. apply D. unfold document. rewrite N. reflexivity. }
-  destruct (streamed_partial c o S E F G) as (_ & _ & B).
+  destruct (streamed_partial q c k S E F G) as (_ & _ & B). fold o in B.
   unfold all_or_nothing, eh_alone in A. rewrite F, E in A. destruct A as (_ & A2 & _).
   rewrite B in A2. apply (f_equal (@length byte)) in A2. rewrite app_length in A2.
   destruct (document o); [apply D; reflexivity | cbn in A2; lia].
 Qed.
 
 (* the documented contrast, on the component of handler_test.go: writes "Hello", then fails *)
-Theorem streamed_may_be_partial : exists (c : cfg) (o : outcome),
+Theorem streamed_may_be_partial : forall q : request, exists (c : cfg) (o : outcome),
   c_stream c = true /\ fails o = true /\
-  r_status (observe (serve c o)) = 200 /\
-  r_body (observe (serve c o)) = bs "Hello" ++ err_body /\
-  ~ all_or_nothing (c_status c) (c_ctype c) (eh_alone c) (document o) (fails o) (observe (serve c o)).
+  r_status (observe (serve q c (fun _ => o))) = 200 /\
+  r_body (observe (serve q c (fun _ => o))) = bs "Hello" ++ err_body /\
+  ~ all_or_nothing (c_status c) (c_ctype c) (eh_alone q c) (document o) (fails o) (observe (serve q c (fun _ => o))).
 Proof.
+  intros q.
   exists {| c_status := 0; c_ctype := bs "text/html; charset=utf-8"; c_errh := None; c_stream := true |},
          {| chunks := [bs "Hello"]; fails := true |}.
   split; [reflexivity|]. split; [reflexivity|]. split; [reflexivity|]. split; [reflexivity|].
-  apply streamed_not_all_or_nothing; try reflexivity. discriminate.
+  apply (streamed_not_all_or_nothing q _ (fun _ => _)); try reflexivity. discriminate.
 Qed.
 
 (* ---------- pool discipline under overlapping requests ---------- *)
